@@ -103,6 +103,7 @@ type sent struct {
 	typ    byte
 	size   int
 	writes [][]byte
+	first  int // index of this message's first packet in the transport's packet log
 	err    error
 }
 
@@ -151,6 +152,7 @@ func sendMsg(ctx context.Context, ch *tds.Channel, pipe *vrt.Pipe, m Msg, size i
 			break
 		}
 	}
+	s.first = before
 	s.writes = append([][]byte{}, pipe.Packets()[before:]...)
 	if len(pipe.Partial()) > 0 {
 		s.writes = append(s.writes, append([]byte{}, pipe.Partial()...)) // stray bytes that complete no packet
@@ -185,6 +187,7 @@ type result struct {
 	setupErr    string
 	msgs        []sent
 	setupWrites int
+	packets     [][]byte // every complete packet the client wrote, in order
 }
 
 func execute(c Case) (res result, x *vrt.Exec) {
@@ -238,6 +241,7 @@ func execute(c Case) (res result, x *vrt.Exec) {
 			}
 			res.msgs = append(res.msgs, sendMsg(ctx, ch, pipe, *c.M2, c.Size2, ""))
 		}
+		res.packets = append([][]byte{}, pipe.Packets()...)
 	})
 	return
 }
@@ -291,6 +295,21 @@ func check(c Case, res result, x *vrt.Exec) {
 		// the statement is about the BYTES reaching the transport: how they are spread over write calls
 		// is the library's business (one call per packet, or several packets per call)
 		pks, perr := hx.ParseStream(hx.Concat(s.writes...))
+		if perr == nil && c.Fault != "" && mi == 1 {
+			// Packets of the failed first message may reach the transport late (a library may buffer
+			// packets that do not end a message): the peer sees them, still carrying the first
+			// message's type and no end-of-message flag, in front of the second message. What the
+			// statement demands is that the packets of the SECOND message - the trailing run carrying
+			// its type - hold its bytes and nothing else.
+			all, aerr := hx.ParseStream(hx.Concat(res.packets[res.msgs[0].first:]...))
+			if aerr == nil {
+				k := len(all)
+				for k > 0 && all[k-1].Type == s.typ {
+					k--
+				}
+				pks = all[k:]
+			}
+		}
 		if perr != nil {
 			h.Violate("C01|not-a-packet-sequence|"+cls, fmt.Sprintf("%+v: %s: the %d bytes written do not parse as consecutive packets: %v", c, which, len(hx.Concat(s.writes...)), perr), c)
 			return
